@@ -223,14 +223,22 @@ func HandleMessages(startTime time.Time, reader io.Reader, writer io.Writer, con
 	writer.Write([]byte("18 seconds ahead of UTC\n\n"))
 
 	messageChan := make(chan rtcm.Message, 2)
-	go DisplayMessages(messageChan, writer)
+	// done is closed when DisplayMessages has written everything.
+	done := make(chan struct{})
+	go func() {
+		defer close(done)
+		DisplayMessages(messageChan, writer)
+	}()
 
 	channels := make([]chan rtcm.Message, 0)
 	channels = append(channels, messageChan)
 	appCore := AppCore.New(config, channels)
 	appCore.HandleMessagesUntilEOF(startTime, bufferedReader)
 
+	// Tell DisplayMessages that there are no more messages and
+	// wait for it to finish writing.
 	close(messageChan)
+	<-done
 }
 
 // DisplayMessages receives messages from the given channel, produces a
